@@ -719,6 +719,23 @@ void sim_buf_memlen(int len)
 		I->bufs[I->nbufs - 1].memlen = len;
 }
 
+void sim_buf_replaced(void *b, int src)
+{
+	sim_inst *I = sim_cur;
+	int old = I->depth ? I->stack[I->depth - 1] : -1;
+	int h;
+	if (old >= 0)
+		model_kill(I, old);
+	h = buf_new(I, b, src, NULL);
+	if (I->depth == 0) {
+		I->stack[0] = h;
+		I->depth = 1;
+	} else
+		I->stack[I->depth - 1] = h;
+	I->bufs[h].onstack = 1;
+	ev("B replaced h=%d src=%d old=%d", h, src, old);
+}
+
 void sim_sync_current(void *b, FILE *in)
 {
 	sim_inst *I = sim_cur;
@@ -944,9 +961,15 @@ static int resolve(sim_inst *I, const plan_op *po, sim_xop *x, int in_action)
 			      && cb->memlen >= 2 && !cb->usermem && !I->prev_more))
 				return 0;
 		}
+		x->a = 0;
+		if (po->code == SOP_SET_YYIN && !in_action && vt->no_mem_buffers && (I->n_setyyin++ & 1))
+			/* C++: every other top-level change of the input is made with
+			 * switch_streams(), which may be called at any time (it deletes
+			 * the current buffer with whatever it still holds) */
+			x->a = 2;
 		/* the caller may point yyin elsewhere before the first yylex call,
 		 * after yylex returned 0, or from yywrap / an <<EOF>> action */
-		if (po->code == SOP_SET_YYIN && !in_action && I->lexed && !I->at_eof)
+		if (po->code == SOP_SET_YYIN && !in_action && I->lexed && !I->at_eof && x->a != 2)
 			return 0;
 		s = fresh_source(I);
 		if (s < 0)
